@@ -23,4 +23,13 @@ theorem finalize_validates : Facts.c01_finalize_validates = true := by rfl
 theorem quorum_expr : Facts.c01_quorum_expr = true := by rfl
 theorem two_thirds_any : Facts.c01_two_thirds_any = true := by rfl
 
+/-- the hand-over from fast sync to consensus (blockchain/v0 `poolRoutine`): the WAL is skipped only
+if blocks were actually synced (or the node was state-synced) — with nothing synced consensus replays
+its WAL, which is why a restart is invisible in the model (`Tmv.Net.Op.restart`) -/
+theorem handover_skipwal : Facts.c01_handover_skipwal = true := by rfl
+/-- `SwitchToConsensus` turns WAL catch-up off exactly when told to skip the WAL … -/
+theorem switch_skipwal : Facts.c01_switch_skipwal = "skipWAL" := by rfl
+/-- … and `State.OnStart` replays the WAL exactly when catch-up is on -/
+theorem onstart_catchup : Facts.c01_onstart_catchup = "cs.doWALCatchup" := by rfl
+
 end Tmv.Expect.C01
